@@ -41,7 +41,7 @@ fields(
     y_transform="ref:lomap:grid",
     c1_transform="ref:lomap:grid",
     c2_transform="ref:lomap:grid",
-    current_picture="ref:opaque:picture",
+    current_picture="ref:dict:Picture",
     _generic_sequence_matcher="ref:opaque:Matcher",
     _level_sequence_matcher="ref:opaque:Matcher",
     _output_picture_callback="ref:opaque:callback",
@@ -56,6 +56,10 @@ fields(
     m_count="int",
     # ghost: "the level has been recorded in state['_level_constrained_values']" (what explain() of level errors needs)
     g_lcv_level="bool",
+    # ghost: number of pictures handed to the output callback / output_picture so far
+    g_out="int", g_last_pic="ref:dict:Picture", g_last_vp="ref:dict:VideoParameters", g_last_pcm="int",
+    # entries of state["current_picture"]
+    pic_num="int", Y="ref:grid", C1="ref:grid", C2="ref:grid",
 )
 fields(**{k: "int" for k in VideoParameters.entry_objs.keys() if k != "top_field_first"})
 fields(top_field_first="bool")
@@ -133,3 +137,23 @@ transparent(*[VC + n for n in ("preset_frame_rate_version_implication", "preset_
 transparent("vc2_conformance.decoder.assertions.assert_in_enum", "vc2_conformance.decoder.assertions.assert_in",
             "vc2_conformance.decoder.assertions.log_version_lower_bound",
             "vc2_conformance.pseudocode.vc2_math.intlog2")
+
+
+def _callback_call(ex, st, f, args, e):
+    """state["_output_picture_callback"](picture, video_parameters, picture_coding_mode): the callback is opaque and assumed
+    not to touch `state`; the call is the observable 'picture output' event, counted by the ghost field g_out of the state."""
+    ctx = ex.ctx
+    note = "TRUSTED: the output-picture callback does not raise and does not modify the decoder state"
+    if note not in ctx.notes:
+        ctx.notes.append(note)
+    # ghost bookkeeping on the callback object: how often it was called and with what
+    cnt = ctx.field_array(st, "val_g_out", AII)
+    ctx.set_field_array(st, "val_g_out", z3.Store(cnt, f.z, cnt[f.z] + 1))
+    if len(args) == 3 and args[0].k == "ref" and args[1].k == "ref":
+        for fld, v in (("val_g_last_pic", args[0].z), ("val_g_last_vp", args[1].z), ("val_g_last_pcm", as_int(ctx, st, args[2], e))):
+            arr = ctx.field_array(st, fld, AII)
+            ctx.set_field_array(st, fld, z3.Store(arr, f.z, v))
+    return NONE
+
+
+REG.opaque_call_hooks["opaque:callback"] = _callback_call
